@@ -2,6 +2,7 @@
 //! usage: vx <spec.vx> --repo <dir> --prelude <dir> --out <file.rs> --meta <file.json> [--canary]
 //! exit 0 ok; exit 2 lost anchor / unsupported construct / spec error (never a verdict).
 mod derive;
+mod align;
 mod norm;
 mod spec;
 
@@ -24,6 +25,8 @@ struct Ctx {
     types_meta: Vec<Value>,
     canaries: Vec<String>,
     problems: Vec<String>,
+    /// per function display name: kind -> node signatures of the baseline (for ordinal alignment)
+    baseline_sigs: BTreeMap<String, align::Sigs>,
 }
 
 impl Ctx {
@@ -240,6 +243,26 @@ fn unwrap_it_labels(mut body: String) -> String {
 struct Rendered { text: String, meta: Value }
 
 fn render_fn(ctx: &mut Ctx, unit: &Unit, fs: &FnSpec, found: &FoundFn, in_trait_impl: bool, display: &str) -> Rendered {
+    // pass 1 (identity ordinals) collects the node signatures; they are aligned with the baseline's, and pass 2 weaves
+    // the contract text at the nodes the baseline ordinals denote (DESIGN §2.1 "ordinal alignment")
+    match ctx.baseline_sigs.get(display).cloned() {
+        None => render_fn_pass(ctx, unit, fs, found, in_trait_impl, display, align::OrdMap::identity()),
+        Some(bs) => {
+            let (pl, cl) = (ctx.problems.len(), ctx.canaries.len());
+            let r1 = render_fn_pass(ctx, unit, fs, found, in_trait_impl, display, align::OrdMap::identity());
+            ctx.problems.truncate(pl);
+            ctx.canaries.truncate(cl);
+            let cur: align::Sigs = serde_json::from_value(r1.meta["sigs"].clone()).unwrap_or_default();
+            if cur == bs { return { ctx.problems.truncate(pl); render_fn_pass(ctx, unit, fs, found, in_trait_impl, display, align::OrdMap::identity()) }; }
+            let omap = align::OrdMap::build(&bs, &cur);
+            let mut r2 = render_fn_pass(ctx, unit, fs, found, in_trait_impl, display, omap);
+            r2.meta["aligned"] = json!(true);
+            r2
+        }
+    }
+}
+
+fn render_fn_pass(ctx: &mut Ctx, unit: &Unit, fs: &FnSpec, found: &FoundFn, in_trait_impl: bool, display: &str, omap: align::OrdMap) -> Rendered {
     let mut fgr = Finger(String::new());
     fgr.visit_block(&found.block);
     let shape = fgr.0;
@@ -247,6 +270,7 @@ fn render_fn(ctx: &mut Ctx, unit: &Unit, fs: &FnSpec, found: &FoundFn, in_trait_
     let mut sig = found.sig.clone();
     let mut block = found.block.clone();
     let mut n = Norm::new(fs, unit, ctx.canary, display);
+    n.omap = omap;
     let mut pre: Vec<Stmt> = vec![];
     // R-ASYNC on the signature
     if sig.asyncness.is_some() { sig.asyncness = None; n.bump("R-ASYNC"); }
@@ -361,16 +385,27 @@ fn render_fn(ctx: &mut Ctx, unit: &Unit, fs: &FnSpec, found: &FoundFn, in_trait_
     // weave loops
     for k in 1..=n.loop_no {
         let ph = format!("__vx_loop_{}!();", k);
-        match fs.loops.get(&k) {
+        match fs.loops.get(&n.b("loop", k)) {
             Some(txt) => match weave_before_brace(&body, &ph, txt) { Some(b) => body = b, None => ctx.problems.push(format!("LOST-ANCHOR loop {} of {}", k, display)) },
             None => body = body.replacen(&ph, "", 1),
         }
     }
-    for k in fs.loops.keys() { if *k > n.loop_no { ctx.problems.push(format!("LOST-ANCHOR loop {} of {} (function has {} loops)", k, display, n.loop_no)); } }
-    for (k, cs) in &fs.closures {
-        let ph = format!("__vx_closure_{}!();", k);
-        let txt = if cs.ret.is_empty() { cs.contract.clone() } else { format!("-> ({})\n{}", cs.ret, cs.contract) };
-        match weave_before_brace(&body, &ph, &txt) { Some(b) => body = b, None => ctx.problems.push(format!("LOST-ANCHOR closure {} of {}", k, display)) }
+    {
+        let hit: std::collections::BTreeSet<usize> = (1..=n.loop_no).map(|k| n.b("loop", k)).collect();
+        for k in fs.loops.keys() { if !hit.contains(k) { ctx.problems.push(format!("LOST-ANCHOR loop {} of {} (function has {} loops)", k, display, n.loop_no)); } }
+    }
+    {
+        let mut hit: std::collections::BTreeSet<usize> = Default::default();
+        for k in 1..=n.closure_no {
+            let bk = n.b("closure", k);
+            if let Some(cs) = fs.closures.get(&bk) {
+                hit.insert(bk);
+                let ph = format!("__vx_closure_{}!();", k);
+                let txt = if cs.ret.is_empty() { cs.contract.clone() } else { format!("-> ({})\n{}", cs.ret, cs.contract) };
+                match weave_before_brace(&body, &ph, &txt) { Some(b) => body = b, None => ctx.problems.push(format!("LOST-ANCHOR closure {} of {}", bk, display)) }
+            }
+        }
+        for k in fs.closures.keys() { if !hit.contains(k) { ctx.problems.push(format!("LOST-ANCHOR closure {} of {}", k, display)); } }
     }
     // raws
     for (i, raw) in n.raws.iter().enumerate() {
@@ -383,7 +418,7 @@ fn render_fn(ctx: &mut Ctx, unit: &Unit, fs: &FnSpec, found: &FoundFn, in_trait_
     ctx.canaries.extend(n.canaries.iter().cloned());
     let meta = json!({
         "name": display, "emit_name": name, "file": fs.file, "src_lines": [found.start, found.end],
-        "rules": n.log, "skeleton": skeleton(&shape), "shape": shape, "fingerprint": fnv(&shape),
+        "rules": n.log, "sigs": n.sigs, "skeleton": skeleton(&shape), "shape": shape, "fingerprint": fnv(&shape),
         "loops": n.loop_no, "closures": n.closure_no, "anchors_used": n.used_anchors, "props": fs.props,
         "may_panic_asserts": fs.may_panic, "spec_line": fs.line, "included": fs.opts.contains("included"),
     });
@@ -497,6 +532,7 @@ fn main() {
     let mut meta_path = String::new();
     let mut canary = false;
     let mut lenient = false;
+    let mut baseline_path = String::new();
     let mut specfile = String::new();
     let mut i = 1;
     while i < args.len() {
@@ -507,6 +543,7 @@ fn main() {
             "--meta" => { meta_path = args[i + 1].clone(); i += 1; }
             "--canary" => canary = true,
             "--lenient" => lenient = true,
+            "--baseline" => { baseline_path = args[i + 1].clone(); i += 1; }
             s => specfile = s.to_string(),
         }
         i += 1;
@@ -515,7 +552,19 @@ fn main() {
     let text = std::fs::read_to_string(&specfile).unwrap_or_else(|e| fail(&format!("SPEC-ERROR cannot read {}: {}", specfile, e)));
     let text = spec::preprocess(&text, std::path::Path::new(&specfile).parent().unwrap_or(std::path::Path::new(".")), 0).unwrap_or_else(|e| fail(&format!("SPEC-ERROR {}", e)));
     let unit = spec::parse(&text).unwrap_or_else(|e| fail(&format!("SPEC-ERROR {}", e)));
-    let mut ctx = Ctx { repo, files: Default::default(), canary, out: String::new(), fns_meta: vec![], types_meta: vec![], canaries: vec![], problems: vec![] };
+    let mut baseline_sigs: BTreeMap<String, align::Sigs> = Default::default();
+    if !baseline_path.is_empty() {
+        if let Ok(t) = std::fs::read_to_string(&baseline_path) {
+            if let Ok(v) = serde_json::from_str::<Value>(&t) {
+                if let Some(fns) = v["functions"].as_object() {
+                    for (name, f) in fns {
+                        if let Ok(sg) = serde_json::from_value::<align::Sigs>(f["sigs"].clone()) { baseline_sigs.insert(name.clone(), sg); }
+                    }
+                }
+            }
+        }
+    }
+    let mut ctx = Ctx { repo, files: Default::default(), canary, out: String::new(), fns_meta: vec![], types_meta: vec![], canaries: vec![], problems: vec![], baseline_sigs };
 
     let mut o = String::new();
     o.push_str(&format!("// GENERATED by /verif/vx from the working tree of /repo — unit `{}`. Do not edit.\n", unit.name));
